@@ -15,6 +15,7 @@ import (
 	"github.com/rogpeppe/go-internal/lockedfile"
 
 	"cuelang.org/go/internal/robustio"
+	"cuelang.org/go/internal/simhook"
 	"cuelang.org/go/mod/module"
 )
 
@@ -58,9 +59,11 @@ func (c *Cache) writeDiskCache(ctx context.Context, file string, data []byte) er
 		return nil
 	}
 	// Make sure directory for file exists.
+	simhook.At("modcache.writeDiskCache:before-mkdir", file)
 	if err := os.MkdirAll(filepath.Dir(file), 0777); err != nil {
 		return err
 	}
+	simhook.At("modcache.writeDiskCache:after-mkdir", file)
 
 	// Write the file to a temporary location, and then rename it to its final
 	// path to reduce the likelihood of a corrupt file existing at that final path.
@@ -68,6 +71,7 @@ func (c *Cache) writeDiskCache(ctx context.Context, file string, data []byte) er
 	if err != nil {
 		return err
 	}
+	simhook.At("modcache.writeDiskCache:after-tempfile", file)
 	defer func() {
 		// Only call os.Remove on f.Name() if we failed to rename it: otherwise,
 		// some other process may have created a new file with the same name after
@@ -81,12 +85,15 @@ func (c *Cache) writeDiskCache(ctx context.Context, file string, data []byte) er
 	if _, err := f.Write(data); err != nil {
 		return err
 	}
+	simhook.At("modcache.writeDiskCache:after-write", file)
 	if err := f.Close(); err != nil {
 		return err
 	}
+	simhook.At("modcache.writeDiskCache:after-close", file)
 	if err := robustio.Rename(f.Name(), file); err != nil {
 		return err
 	}
+	simhook.At("modcache.writeDiskCache:after-rename", file)
 	return nil
 }
 
@@ -168,6 +175,11 @@ func (c *Cache) lockVersion(mod module.Version) (unlock func(), err error) {
 	}
 	if err := os.MkdirAll(filepath.Dir(path), 0777); err != nil {
 		return nil, err
+	}
+	if simhook.Enabled {
+		simhook.At("modcache.lockVersion:before-lock", path)
+		simhook.Acquire("modcache.lockVersion", path)
+		defer func() { unlock, err = simhook.WrapUnlock("modcache.lockVersion", path, unlock, err) }()
 	}
 	return lockedfile.MutexAt(path).Lock()
 }
